@@ -26,6 +26,9 @@
 (*   StoreKeptOnFailure      per-object storage is never dropped on failure*)
 (*   NoCleanupOnModelProcessorFailure  a failing model processor of the    *)
 (*        main model leaves the models in the global repository            *)
+(*   NoRestoreForPrimitiveModel  a load whose model is a plain value (the  *)
+(*        root rule is abstract and matched a base type: files[f].prim)    *)
+(*        never ends a model construction, so its parser never restores    *)
 (***************************************************************************)
 EXTENDS Naturals, Sequences, FiniteSets, TLC, Json
 
@@ -185,7 +188,7 @@ Register ==
   /\ At("register")
   /\ stack' = [stack EXCEPT ![TopIdx].grp = Append(@, Top.f),
                             ![Len(stack)].pc = "imports", ![Len(stack)].i = 1]
-  /\ repo' = IF S.grepo /\ File(Top.f).kind # "inner" THEN repo \cup {Top.f} ELSE repo
+  /\ repo' = IF S.grepo /\ File(Top.f).kind # "inner" /\ ~File(Top.f).prim THEN repo \cup {Top.f} ELSE repo
   /\ Tau /\ UNCHANGED <<sc, round, phase, exc, cvars, ovars, retained, outcome, snap>>
 
 \* import statements in order: already loaded in this load -> shared, else nested load
@@ -286,8 +289,10 @@ EndRound ==
 EndConstruction ==
   /\ At("endc") /\ Top.i <= Len(Top.grp)
   /\ LET m == Top.grp[Top.i] IN
-     /\ instr' = [c \in User |-> Dec(instr[c])]
-     /\ held' = held \ {m}
+     IF File(m).prim /\ "NoRestoreForPrimitiveModel" \in Dev
+     THEN UNCHANGED <<instr, held>>     \* a plain value is never "under construction": nothing ends
+     ELSE /\ instr' = [c \in User |-> Dec(instr[c])]
+          /\ held' = held \ {m}
   /\ stack' = SetTop([Top EXCEPT !.pc = "inits"])
   /\ Tau /\ UNCHANGED <<sc, round, phase, exc, store, ovars, rvars>>
 
@@ -304,7 +309,7 @@ InitsDone ==
   /\ stack' = SetTop([Top EXCEPT !.pc = "endc", !.i = @ + 1])
   /\ Tau /\ UNCHANGED <<sc, round, phase, exc, cvars, ovars, rvars>>
 
-ProcList(f) == PostOrder(Root(f))
+ProcList(f) == IF File(f).prim THEN <<>> ELSE PostOrder(Root(f))
 EndcDone ==
   /\ At("endc") /\ Top.i > Len(Top.grp)
   /\ stack' = SetTop([Top EXCEPT !.pc = "procs", !.todo = ConcatMap(ProcList, Top.grp)])
@@ -356,7 +361,7 @@ HandlerDecs(fr) == IF ~ParserActive(fr) THEN 0
 \* finds them through attributes of the frame's root object)
 ListPcs == {"round", "resolve", "endc", "inits", "procs"}
 RootPcs == {"register", "imports"}
-RootUnreadable(f) == LET o == Root(f) IN IsUser(o) /\ o \in store[Cls(o)] /\ instr[Cls(o)] = 0
+RootUnreadable(f) == ~File(f).prim /\ LET o == Root(f) IN IsUser(o) /\ o \in store[Cls(o)] /\ instr[Cls(o)] = 0
 Cleans(fr) == fr.pc \in ListPcs \/ (fr.pc \in RootPcs /\ ~RootUnreadable(fr.f))
 
 Unwind ==
@@ -371,13 +376,14 @@ Unwind ==
           /\ stack' = Pop /\ Tau
           /\ UNCHANGED <<phase, exc, store, outcome>>
      ELSE \* the boundary of a top-level load: what a failed load leaves behind
-          LET rest == h1 \cap fr.mine
+          LET never == IF "NoRestoreForPrimitiveModel" \in Dev THEN {f \in fr.mine : File(f).prim} ELSE {}
+              rest == (h1 \cap fr.mine) \ never
               d2   == IF "RestoreOnlyMainParser" \in Dev THEN 0 ELSE Cardinality(rest)
               mineObjs == UNION {ObjsOf(f) : f \in fr.mine}
               swallow == Len(stack) > 1 /\ RefRec(Head(stack[Len(stack) - 1].todo)).swallow
           IN
           /\ instr' = DecAll(instr, d1 + d2)
-          /\ held' = IF "RestoreOnlyMainParser" \in Dev THEN h1 ELSE h1 \ fr.mine
+          /\ held' = IF "RestoreOnlyMainParser" \in Dev THEN h1 ELSE h1 \ (fr.mine \ never)
           /\ store' = IF "StoreKeptOnFailure" \in Dev THEN store
                       ELSE [c \in User |-> store[c] \ mineObjs]
           /\ repo' = IF "NoCleanupOnModelProcessorFailure" \in Dev /\ fr.pc = "return" THEN repo
